@@ -274,6 +274,8 @@ type c07Hist struct {
 	peer        *c07Peer        // another keymaster instance on the same primary database
 	void        bool            // the directory did not behave as scripted (a bind timed out under load)
 	rejOutage   map[string]bool // ... and whether the primary was not fully up then
+	rejPeer     map[string]bool // ... and whether it was the OTHER instance that got the rejection (it evicts in the shared primary only)
+	lastCopySeq int             // position of the last copy into this instance's cache that completed (returned nil)
 }
 
 var c07Users = []string{"", "alice", "bob", "carol"}
@@ -572,7 +574,14 @@ func (h *c07Hist) login(u, pw int) {
 			e.res.hit(verifHit{Key: "C07:cache-accept:older-than-96h", Oracle: "a cached hash decides only while younger than its expiry (96 hours)",
 				What: fmt.Sprintf("no replica answered and login %s with password #%d was accepted %d s after the last directory-confirmed login", raw, pw, h.now-t0), Case: kase, Observed: obs})
 		}
-		if tr, rejected := h.rejectedAt[key]; rejected && ok && h.rejSeq[key] > h.confSeq[key] && !h.tampered[u] {
+		if tr, rejected := h.rejectedAt[key]; rejected && ok && h.rejSeq[key] > h.confSeq[key] && !h.tampered[u] && h.rejPeer[key] && e.mode != c15Up && h.lastCopySeq < h.rejSeq[key] {
+			// rejected at the OTHER instance: that evicts in the shared primary; THIS instance's cache follows at its
+			// next completed copy.  None has completed since and the primary does not answer this login: the stale
+			// row of the own cache decides (the copy interval is the architecture's bound; a theorem-level fact:
+			// the peer's rejection touches the primary only).  With a completed copy since, or a primary that
+			// answers, the acceptance is a violation (below).
+			e.res.bump("peer-eviction-not-yet-copied")
+		} else if rejected && ok && h.rejSeq[key] > h.confSeq[key] && !h.tampered[u] {
 			circumstance := "primary-up"
 			if h.rejOutage[key] {
 				circumstance = "primary-outage-at-eviction"
@@ -596,6 +605,7 @@ func (h *c07Hist) login(u, pw int) {
 		h.rejectedAt[key] = h.now
 		h.rejSeq[key] = len(h.ops)
 		h.rejOutage[key] = e.mode != c15Up
+		h.rejPeer[key] = false
 		// eviction: the row the primary held was the hash of this very password
 		if e.mode == c15Up && !h.tampered[u] {
 			if old, had := before.signed[slot]; had && old.exp > time.Now().Unix() {
@@ -721,6 +731,7 @@ func (h *c07Hist) peerLogin(u, pw int) {
 		h.rejectedAt[key] = h.now
 		h.rejSeq[key] = len(h.ops)
 		h.rejOutage[key] = false
+		h.rejPeer[key] = true
 	}
 	e.res.eval(fmt.Sprintf("peer-login|%d|%v|%v|%v", u, answered, dirOK, verdict), true)
 }
@@ -783,7 +794,9 @@ func (h *c07Hist) setMode(m int) {
 func (h *c07Hist) sync() {
 	h.e.settle()
 	h.tick()
-	copyDBIntoSQLite(h.e.st.db, h.e.st.cacheDB, "sqlite")
+	if err := copyDBIntoSQLite(h.e.st.db, h.e.st.cacheDB, "sqlite"); err == nil {
+		h.lastCopySeq = len(h.ops)
+	}
 	h.record("PSync", "None")
 	h.e.res.bump("op:sync")
 }
@@ -909,7 +922,7 @@ func (h *c07Hist) emit(n, extraPatterns int) string {
 // ---------------------------------------------------------------- test
 
 func TestVerif_C07(t *testing.T) {
-	res := newVerifResult("random histories (<= 10 ops, then a forced full outage with logins) of login {current, old, wrong, empty password; mixed-case user names} / replica {up, down, erroring} / password change / clock advance {1h..200h, by re-issuing the stored records earlier} / primary {up, slow, dead} / copy / tampering by SQL {any existing record into any slot with any expiration column, column only, forged records (attacker key, edited payload, alg none), delete} for two users (+ one user living under the second bind pattern) against an in-process LDAPS directory with two replicas, the real lib/pwauth/ldap authenticator and the real RuntimeState storage on SQLite, through the real login handler; the Coq model runs the same histories (verdict of every login, both stores after every op); htpassword and command backends on mixed-case names; non-trivial = a login; distinct by (user, answered, directory verdict, verdict, mode)")
+	res := newVerifResult("random histories (<= 10 ops, then a forced full outage with logins) of login {current, old, wrong, empty password; mixed-case user names} / replica {up, down, erroring} / password change / clock advance {1h..200h, by re-issuing the stored records earlier} / primary {up, slow, dead} / copy / tampering by SQL {any existing record into any slot with any expiration column, column only, forged records (attacker key, edited payload, alg none), delete} for two users (+ one user living under the second bind pattern) against an in-process LDAPS directory with two replicas, the real lib/pwauth/ldap authenticator and the real RuntimeState storage on SQLite, through the real login handler; the Coq model runs the same histories (verdict of every login, both stores after every op); htpassword and command backends on mixed-case names, and over histories in which the backend's file (htpasswd file, the command's data file, the command script itself) is edited between logins {password change, user removed, user added} x {in place, temp + rename} x {same size, other size} x {mtime restored, later, earlier} with ONE backend object per history behind the real login handler; non-trivial = a login (for the backend histories: a login after at least one edit); distinct by (user, answered, directory verdict, verdict, mode)")
 	e := c15Setup(t, res)
 	st := e.st
 	rng := verifRand()
@@ -952,7 +965,7 @@ func TestVerif_C07(t *testing.T) {
 		}
 		dirSrv.mu.Unlock()
 		h := &c07Hist{e: e, d: dirSrv, rng: rng, attacker: attacker, jwsID: map[string]int{}, dirPw: map[int]int{}, oldPw: map[int][]int{},
-			tampered: map[int]bool{}, acct: map[int]int{}, confirmedAt: map[string]int64{}, rejectedAt: map[string]int64{}, rejOutage: map[string]bool{},
+			tampered: map[int]bool{}, acct: map[int]int{}, confirmedAt: map[string]int64{}, rejectedAt: map[string]int64{}, rejOutage: map[string]bool{}, rejPeer: map[string]bool{}, lastCopySeq: -1,
 			confSeq: map[string]int{}, rejSeq: map[string]int{}, peer: peer}
 		peer.cacheDB.Exec("DELETE FROM expiring_signed_user_data")
 		peer.pa = peer.paTwo
@@ -1199,6 +1212,20 @@ func TestVerif_C07(t *testing.T) {
 			h.login(1, 1)
 			h.login(1, 3)
 		},
+		func(h *c07Hist) { // rejected at the OTHER instance (evicted from the shared primary), a completed copy HERE, then a full outage
+			h.changePw(1, 1)
+			h.changePw(2, 2)
+			h.login(1, 1)
+			h.login(2, 2)
+			h.changePw(1, 3)
+			h.peerLogin(1, 1) // the directory rejects the old password there: the row leaves the primary
+			h.sync()          // ... and with this copy it leaves this instance's cache
+			allDown(h)
+			h.setMode(c15Dead)
+			h.login(1, 1) // nothing answers: the evicted hash must not decide
+			h.login(2, 2) // bob's hash still fills the outage
+			h.login(1, 3)
+		},
 		func(h *c07Hist) { // known finding: the primary is unreachable when the directory rejects
 			h.changePw(1, 1)
 			h.login(1, 1)
@@ -1214,7 +1241,7 @@ func TestVerif_C07(t *testing.T) {
 	}
 	for i, sc := range scripted {
 		run(2*i, sc) // two bind patterns
-		if i == 0 || i == 2 || i == 7 || i >= len(scripted)-6 && i < len(scripted)-1 {
+		if i == 0 || i == 2 || i == 7 || i >= len(scripted)-7 && i < len(scripted)-1 {
 			run(2*i+1, sc) // one bind pattern: the cache/outage basics, mixed replica answers, account-state refusals
 		}
 	}
@@ -1326,6 +1353,8 @@ func TestVerif_C07(t *testing.T) {
 		}
 	}
 	st.passwordChecker = htChecker
+	// ---------------- the same backends over time: the file is edited between logins (c07b.go)
+	fcases, fidx := c07BackendHistories(t, e, res, rng)
 
 	var sb strings.Builder
 	sb.WriteString(coqCaseHeader)
@@ -1342,6 +1371,16 @@ func TestVerif_C07(t *testing.T) {
 	sb.WriteString("Definition bfile (u : bs) (p : bs) : bool := existsb (fun e => bs_eqb (fst e) u && bs_eqb [snd e] p) btable.\n")
 	sb.WriteString("Definition bcases : list (bs * N * bool) := [\n" + strings.Join(bcases, ";\n") + "\n].\n")
 	sb.WriteString("Definition c07_backend_mismatches := Eval vm_compute in mismatches (fun c => let '(u, p, v) := c in negb (Bool.eqb (backend_login bfile u [p]) v)) bcases.\nPrint c07_backend_mismatches.\n")
+	// the backends over time: per-login verdicts of the real code = the model's run of the same history;
+	// on a mismatching history, the property's predicate on the observation (a login answered otherwise
+	// than the content of the file at that moment says), by direction
+	sb.WriteString("From KM Require Import Model.PwBackend.\n")
+	sb.WriteString("Definition fcases : list bcase := [\n" + strings.Join(fcases, ";\n") + "\n].\n")
+	sb.WriteString("Definition c07_backend_fresh_ncases := Eval vm_compute in length fcases.\nPrint c07_backend_fresh_ncases.\n")
+	sb.WriteString("Definition c07_backend_fresh_mismatches := Eval vm_compute in mismatches (fun c => negb (bcase_ok c)) fcases.\nPrint c07_backend_fresh_mismatches.\n")
+	sb.WriteString("Definition c07_backend_accepts_violating := Eval vm_compute in filter (fun i => match nth_error fcases i with Some c => bcase_violates true c | None => false end) c07_backend_fresh_mismatches.\nPrint c07_backend_accepts_violating.\n")
+	sb.WriteString("Definition c07_backend_refuses_violating := Eval vm_compute in filter (fun i => match nth_error fcases i with Some c => bcase_violates false c | None => false end) c07_backend_fresh_mismatches.\nPrint c07_backend_refuses_violating.\n")
+	ioutil.WriteFile(filepath.Join(verifOut(), "CasesC07b.idx"), []byte(strings.Join(fidx, "\n")+"\n"), 0644)
 	if err := ioutil.WriteFile(filepath.Join(verifOut(), "CasesC07.v"), []byte(sb.String()), 0644); err != nil {
 		t.Fatal(err)
 	}
